@@ -20,7 +20,7 @@ EXHAUSTIVE = True
 SHARDS = {"quick": 8, "thorough": 16}
 DEADLINE = {"quick": 50, "thorough": 420}
 REQUIRED = {"layout:calls": 2000, "layout:class:plain": 100, "layout:class:one-child": 500, "layout:repeat-compared": 500,
-            "layout:mirror-compared": 500, "inv:y": 1000, "inv:bounds": 1000, "layout:subtree-with-parent": 200, "layout:extreme-units": 10, "layout:default-units-after-explicit-ones": 200, "layout:measure-then-edit-then-layout": 200, "layout:detached-subtree": 200, "layout:ids:same": 100, "layout:ids:eq-by-value": 100, "layout:ids:pool3": 100, "layout:ids:clone": 100, "inv:centre": 500, "inv:sep": 500}
+            "layout:mirror-compared": 500, "inv:y": 1000, "inv:bounds": 1000, "layout:subtree-with-parent": 200, "layout:extreme-units": 10, "layout:default-units-after-explicit-ones": 200, "layout:measure-then-edit-then-layout": 200, "layout:detached-subtree": 200, "layout:ids:same": 100, "layout:ids:eq-by-value": 100, "layout:ids:stale-parents": 100, "layout:ids:pool3": 100, "layout:ids:clone": 100, "inv:centre": 500, "inv:sep": 500}
 EPS = 1e-9
 
 
@@ -130,7 +130,7 @@ def coords(root):
     return [(n.x, n.y) for n in S.nodes_preorder(root)]
 
 
-ID_SCHEMES = ("fresh", "same", "pool3", "clone", "eq-by-value")
+ID_SCHEMES = ("fresh", "same", "pool3", "clone", "eq-by-value", "stale-parents")
 
 
 def node_factory(ids="fresh"):
@@ -194,9 +194,24 @@ def drive_shape(rec, s, units, fac=None, ids="fresh"):
         t = W9.build(s, fac)
         if ids == "clone":
             t = t.clone()
+        if ids == "stale-parents":
+            # the drawing follows the left/right links; parent pointers of some nodes point somewhere
+            # else (None, the root, a node of another tree) as they do in the "before" node a rewrite
+            # leaves behind when it moves one of its children into the new tree
+            ns = S.nodes_preorder(t)
+            other = W9.build(s, node_factory())
+            for j, nd in enumerate(ns[1:], 1):
+                if j % 3 == 0:
+                    nd.parent = None
+                elif j % 3 == 1:
+                    nd.parent = other
         try:
             TreeLayout().layout(t, ux, uy)
-        except Exception:
+        except Exception as e:
+            if ids == "stale-parents":
+                rec.ev()
+                rec.violation("C18", f"layout/raises/{type(e).__name__}", "layout raised",
+                              {"shape": shp, "ux": ux, "uy": uy, "ids": ids, "summary": f"layout of {shp[:80]} (parent pointers of some nodes point elsewhere) raised {type(e).__name__}: {e}"})
             continue
         first = coords(t)
         cls1 = shape_class(t)
@@ -330,7 +345,7 @@ def run(rec, cfg):
             rec.truncated = True
             break
         units = UNITS if W9.count(s) <= 6 else [UNITS[idx % 4], (1, 1)]
-        drive_shape(rec, s, units, ids=ID_SCHEMES[(idx // cfg.nshards) % 5] if idx % 2 else "fresh")
+        drive_shape(rec, s, units, ids=ID_SCHEMES[(idx // cfg.nshards) % 6] if idx % 2 else "fresh")
         rec.arm("shapes:exhaustive")
         if idx % 211 == 0:
             rec.sample({"shape": W9.shape_str(s), "nodes": W9.count(s), "units": units})
@@ -348,7 +363,7 @@ def run(rec, cfg):
                 return (None, None) if x is None else (fill(x[0]), fill(x[1]))
             k += 1
             if cfg.mine(k):
-                drive_shape(rec, fill(s), [(1, 1), UNITS[k % 4]], ids=ID_SCHEMES[(k // cfg.nshards) % 5])
+                drive_shape(rec, fill(s), [(1, 1), UNITS[k % 4]], ids=ID_SCHEMES[(k // cfg.nshards) % 6])
                 rec.arm("shapes:full-exhaustive")
     for i in range(cfg.scale(20, 400)):
         if cfg.out_of_time():
